@@ -279,6 +279,10 @@ class BaseData:
             self.set_alter_to_table_data("unique", statement)
             self.set_unique_columns_from_alter(statement)
         elif "default" in statement:
+            value = statement["default"].get("value")
+            if isinstance(value, str) and value.isnumeric():
+                # a purely numeric default is an integer, as in a column definition
+                statement["default"]["value"] = int(value)
             self.set_alter_to_table_data("default", statement)
             self.set_default_columns_from_alter(statement)
         elif "primary_key" in statement:
